@@ -214,7 +214,9 @@ Definition lcd_i2c : list entry :=
 (* one row per handler; the entries are the IR fields that carry a parameter, in signature
    order.  Parameters of the host signature that have no entry have no device counterpart
    (simulation hooks such as state_provider, serial port/timeout/newline, sensor model). *)
-Definition table : list (text * row) := [
+(* [Eval vm_compute]: the stored table is the normal form (plain code points), so the
+   extracted model does not depend on Coq strings *)
+Definition table : list (text * row) := Eval vm_compute in [
   (* constructors *)
   (T "Led.__init__", Row None [opt "pin" (kp "pin" 0) (num 13)]);
   (T "RGBLed.__init__", Row None [req "red_pin" (kp "red_pin" 0); req "green_pin" (kp "green_pin" 1); req "blue_pin" (kp "blue_pin" 2)]);
@@ -299,7 +301,7 @@ Definition table : list (text * row) := [
 ].
 
 (* public host methods without any transpiler handler (simulation side only): no IR, no row *)
-Definition host_only_methods : list text := [
+Definition host_only_methods : list text := Eval vm_compute in [
   T "RGBLed.get_color"; T "RGBLed.get_state"; T "LCD.begin"; T "LCD.dump"; T "LCD.tick";
   T "Button.set_pressed"; T "SerialMonitor.connect"; T "SerialMonitor.close"
 ].
@@ -328,7 +330,7 @@ Definition guard := list (list text * list text).
 Definition guard_ok (g : guard) (sh : call_shape) : bool :=
   forallb (fun c => negb (forallb (fun k => tmem k (kws sh)) (fst c) && existsb (fun k => tmem k (kws sh)) (snd c))) g.
 
-Definition guards : list (text * guard) := [
+Definition guards : list (text * guard) := Eval vm_compute in [
   (* RGBLed.on reads positions only: any colour passed by keyword is ignored *)
   (T "RGBLed.on", if rgb_on_keyword_fix_landed then [] else [([], [T "red"; T "green"; T "blue"])]);
   (* LCD(i2c_addr=..., <parallel pin>=...): the I2C branch never reads the parallel pins *)
